@@ -65,11 +65,14 @@ def kernel_level(ctx, cases):
         ctx.count("kept=%d" % min(len(exp), 3))
 
 
-def mk_obj(cls, ts, scale, support=None):
+def mk_obj(cls, ts, scale, support=None, units=None):
     """series of class cls with rows tagged by their original position"""
     t = farr(ts, scale)
     n = len(ts)
     kw = {} if support is None else dict(time_support=support)
+    if units is not None:
+        t = t * {"ms": 1e3, "us": 1e6}[units]
+        kw["time_units"] = units
     if cls == "Ts":
         return nap.Ts(t=t, **kw)
     if cls == "Tsd":
@@ -140,6 +143,12 @@ def api_case(ctx, cls, ts, st, en, scale, st2=None, en2=None):
     c = mk_obj(cls, ts, scale, support=ep)
     if ns_arr(c.t) != got_t or (rr is not None and rows_of(c) != rr):
         ctx.fail("oracle", "%s(time_support=ep) != %s().restrict(ep)" % (cls, cls), inp, impl=ns_arr(c.t), expected=got_t)
+    # ... also when the timestamps are given in another unit (the support is an IntervalSet: already in seconds)
+    if scale >= 1000:
+        for un in ("ms", "us"):
+            cu = mk_obj(cls, ts, scale, support=ep, units=un)
+            if ns_arr(cu.t) != got_t or (rr is not None and rows_of(cu) != rr):
+                ctx.fail("oracle", "%s(time_units=%s, time_support=ep) != %s().restrict(ep)" % (cls, un, cls), inp, impl=ns_arr(cu.t), expected=got_t)
     # restrict(a).restrict(b) vs restrict(a.intersect(b)), samples not within 1us of an endpoint
     if st2 is not None:
         ep2 = iset(st2, en2, scale)
